@@ -6,6 +6,7 @@ package main
 import (
 	"fmt"
 	"go/ast"
+	"go/constant"
 	"go/types"
 )
 
@@ -15,6 +16,39 @@ func (ex *Exec) specialExtern(st *State, call *ast.CallExpr, key string, callee 
 		ex.assumedExt[key+" (permutation, sorted w.r.t. the comparator"+map[bool]string{true: ", stable", false: ""}[key == "sort.SliceStable"]+")"] = true
 		ex.sortSlice(st, call, args, key == "sort.SliceStable")
 		return nil, true
+	case "bytes.IndexAny":
+		// IndexAny(s, chars) with a constant chars: least index of a byte of s that is in chars, or -1
+		tv, okc := ex.P.Info.Types[call.Args[1]]
+		if !okc || tv.Value == nil {
+			return nil, false
+		}
+		chars := constant.StringVal(tv.Value)
+		for _, c := range []byte(chars) {
+			if c >= 0x80 {
+				return nil, false
+			}
+		}
+		ex.assumedExt["bytes.IndexAny(s, const ASCII chars) (least index of a member byte, or -1)"] = true
+		s := args[0]
+		p := sliceParts(s)
+		_, h := st.elemHeap(tByte, flatten(tByte)[0])
+		inner := Select(h, p.arr)
+		isMember := func(b *Term) *Term {
+			var ds []*Term
+			for _, c := range []byte(chars) {
+				ds = append(ds, Eq(b, IntLit(int64(c))))
+			}
+			return Or(ds...)
+		}
+		r := Fresh("indexany", SInt)
+		q := BVar("q", SInt)
+		at := func(i *Term) *Term { return Select(inner, i) }
+		none := Forall([]*Term{q}, Implies(And(Le(p.off, q), Lt(q, Add(p.off, p.len))), Not(isMember(at(q)))), []*Term{at(q)})
+		q2 := BVar("q", SInt)
+		first := And(Le(IntLit(0), r), Lt(r, p.len), isMember(at(Add(p.off, r))),
+			Forall([]*Term{q2}, Implies(And(Le(p.off, q2), Lt(q2, Add(p.off, r))), Not(isMember(at(q2)))), []*Term{at(q2)}))
+		st.assume(Or(And(Eq(r, IntLit(-1)), none), first))
+		return []Val{intVal(r)}, true
 	case "astikit.StrPad":
 		// left padding without cut is the only shape given a law; anything else is uninterpreted
 		res := freshVal("strpad", tString)
@@ -31,8 +65,10 @@ func (ex *Exec) specialExtern(st *State, call *ast.CallExpr, key string, callee 
 		return []Val{res}, true
 	case "fmt.Errorf", "errors.New":
 		ex.assumedExt[key+" (returns a non-nil error)"] = true
+		// a freshly allocated error value: non-nil and distinct from every sentinel (whose payloads are negative)
 		v := freshVal("err", callee.Type().(*types.Signature).Results().At(0).Type())
 		st.assume(Neq(v.C[0], IntLit(0)))
+		st.assume(Eq(v.C[1], st.alloc()))
 		return []Val{v}, true
 	}
 	return nil, false
